@@ -109,7 +109,8 @@ NODE_MENUS = {
             [[2, 2, 2], 100, 10, 1],
             [[0, 0, 0], 0, 0, None]],
     # rank 0 ("system" tier) alone: every reservation x cap, no adjustment
-    # (rank 0 minus an adjustment would be a negative rank): 3 x 3 = 9
+    # (rank 0 with an adjustment, i.e. a negative boosted rank, is in NB1 / NB):
+    # 3 x 3 = 9
     'NZ': _node_menu((0,), (0,), ('0', '222', '422'), (None, 1, 2)),
     # rank 0 next to ordinary tenants: default-like tenant, rank-0 reservation
     # capped at 2x, boosted uncapped reservation
@@ -134,6 +135,20 @@ NODE_MENUS = {
     # the two capped reservations of NS (ranks 100-10 and 50)
     'N2': [[[2, 2, 2], 100, 10, 1],
            [[2, 2, 2], 50, 0, 2]],
+    # rank adjustment LARGER than the rank (both are independently 0..100 in
+    # etc/schema/common.json): the boosted rank "rank minus rank adjustment"
+    # of the statement is negative (-10 / -5).  One allocation alone, every
+    # reserved x cap: 2 x 1 x 2 x 3 = 12
+    'NB1': _node_menu((0, 5), (10,), ('222', '422'), (None, 1, 2)),
+    # ... next to competing allocations whose (boosted) rank lies between
+    # that negative rank and 0: rank 5 - 10 = -5 uncapped; rank 0 - 10 = -10
+    # capped at 1x; a plain rank-0 tenant with the larger reservation (it wins
+    # every utilisation comparison once ranks tie); rank 3 - 5 = -2 capped at
+    # 2x (strictly between -5 and 0)
+    'NB': [[[2, 2, 2], 5, 10, None],
+           [[2, 2, 2], 0, 10, 1],
+           [[4, 2, 2], 0, 0, None],
+           [[4, 2, 2], 3, 5, 2]],
 }
 
 D1, D2, D3 = (1, 1, 1), (2, 1, 1), (3, 3, 3)
@@ -213,6 +228,9 @@ SLICES = {
         (3, 3, 'N3R', 'I3', 3),
         (4, 3, 'ND2', 'IZ', 1, ('upto', 4)),
         (5, 3, 'ND2', 'IZ', 3, ('chain',)),
+        (1, 2, 'NB1', 'IF', 1),
+        (2, 2, 'NB', 'IS', 1),
+        (2, 3, 'NB', 'IT', 3),
     ],
     'thorough': [
         (1, 3, 'NF', 'IF', 1),
@@ -238,6 +256,11 @@ SLICES = {
         (5, 3, 'ND2', 'IZ', 1, ('upto', 5)),
         (5, 4, 'ND2', 'IZ', 4, ('list', [[-1, 0, 1, 1, -1],
                                          [-1, 0, 1, 2, 3]])),
+        (1, 3, 'NB1', 'IF', 1),
+        (2, 2, 'NB', 'IF', 1),
+        (2, 3, 'NB', 'IS', 3),
+        (3, 2, 'NB', 'IS', 1),
+        (3, 3, 'NB', 'IT', 3),
     ],
 }
 
@@ -532,7 +555,9 @@ def worker(chunk):
         'running_instance_beyond_cap', 'priority0_shares_rank',
         'two_or_more_ranks', 'allocation_with_2plus_instances',
         'pending_arrived_before_running_same_priority',
-        'crossing_instance_boosted_by_code', 'allocations_interleaved'), 0)
+        'crossing_instance_boosted_by_code', 'allocations_interleaved',
+        'within_reservation_negative_boosted_rank',
+        'negative_boosted_rank_competes_up_to_rank_0'), 0)
     viol = {}
     samples = []
     combos = itertools.islice(itertools.product(nmenu, repeat=n), lo, hi)
@@ -618,6 +643,29 @@ def _count(cnt, nodes, apps, names, ref, queue):
                 any_capped = True
     if any_within:
         cnt['some_within_reservation'] += 1
+        # rank adjustment > rank: the boosted rank is negative; does another
+        # allocation hold an instance whose rank (by the reference: boosted if
+        # within, else plain or boosted) lies in [that negative rank, 0]?
+        neg = competes = False
+        for n, r in enumerate(ref):
+            lo = nodes[n][1] - nodes[n][2]
+            if lo >= 0 or not any(w for _nm, w, _c in r):
+                continue
+            neg = True
+            for m, other in enumerate(ref):
+                if m == n:
+                    continue
+                rank, adj = nodes[m][1], nodes[m][2]
+                for _nm, within, capped in other:
+                    if capped:
+                        continue
+                    cands = (rank - adj,) if within else (rank, rank - adj)
+                    if any(lo <= c <= 0 for c in cands):
+                        competes = True
+        if neg:
+            cnt['within_reservation_negative_boosted_rank'] += 1
+        if competes:
+            cnt['negative_boosted_rank_competes_up_to_rank_0'] += 1
     if any_capped:
         cnt['some_beyond_cap'] += 1
         idx = {nm: i for i, nm in enumerate(names)}
